@@ -2,6 +2,7 @@
 import itertools
 
 import numpy as np
+from mc.ref.linalg import allclose as _close
 import sympy
 
 from mc.engine import Section, jdump
@@ -74,9 +75,9 @@ def list_case(case):
         if kind == "constant":
             ok = abs(vals.sum() - exp[0]) < 1e-12 and len(vals) >= 1
         elif kind == "zero-shot":
-            ok = np.allclose(vals, 0) and len(vals) >= 1
+            ok = _close(vals, 0) and len(vals) >= 1
         else:
-            ok = len(vals) == len(exp) and np.allclose(vals, exp, atol=1e-12)
+            ok = len(vals) == len(exp) and _close(vals, exp, atol=1e-12)
         if not ok:
             return {"ok": False, "msg": "position %d (task %d, %s): result does not belong to this task / is not correctly weighted" % (pos, i, kind), "expected": str(exp),
                     "observed": str(vals.tolist()), "sig": "list:value:" + kind}
@@ -100,7 +101,7 @@ def list_case(case):
     for pos, (i, r) in enumerate(zip(case["tasks"], res2)):
         _, kind, exp = pool2[i]
         vals = np.asarray(r.values, dtype=complex).reshape(-1)
-        ok = (abs(vals.sum() - exp[0]) < 1e-12) if kind == "constant" else (np.allclose(vals, 0) if kind == "zero-shot" else (len(vals) == len(exp) and np.allclose(vals, exp, atol=1e-12)))
+        ok = (abs(vals.sum() - exp[0]) < 1e-12) if kind == "constant" else (_close(vals, 0) if kind == "zero-shot" else (len(vals) == len(exp) and _close(vals, exp, atol=1e-12)))
         if not ok:
             return {"ok": False, "msg": "second estimation (after the caller modified the first results in place), position %d (%s): wrong values" % (pos, kind), "expected": str(exp), "observed": str(vals.tolist()),
                     "sig": "list:second-call"}
@@ -137,7 +138,7 @@ def shots_case(case):
         res = estimate_expectation_values_by_averaging(SymbolicSimulator(seed=5), [EstimationTask(op, circ, case["shots"])])
     vals = np.asarray(res[0].values).reshape(-1)
     exp = [c * (-1) ** sum(bits[q] for q in S) for S, c in zip(subsets, coefs)]
-    ok = len(vals) == len(exp) and np.allclose(vals, exp, atol=1e-12)
+    ok = len(vals) == len(exp) and _close(vals, exp, atol=1e-12)
     if case.get("exact"):
         # "exactly coefficient times eigenvalue regardless of shot count": all shots are identical, so the sample mean of the eigenvalue is exactly +-1
         ok = ok and [complex(v) for v in vals.tolist()] == [complex(e) for e in exp]
@@ -219,7 +220,7 @@ def wide_case(case):
     with seams.owned_rng(seams.Script()):
         est = estimate_expectation_values_by_averaging(SymbolicSimulator(seed=5), [EstimationTask(op, circ, case["shots"])] + [EstimationTask(t, circ, case["shots"]) for t in terms if not t.is_constant])
     vals = np.asarray(est[0].values).reshape(-1)
-    if len(vals) != len(exp) or not np.allclose(vals, exp, atol=1e-12):
+    if len(vals) != len(exp) or not _close(vals, exp, atol=1e-12):
         return {"ok": False, "msg": "estimate by averaging on %d qubits: term values are not coefficient x eigenvalue" % n, "expected": str(exp), "observed": str(vals.tolist()), "sig": "wide:estimate"}
     singles = [e for (c, qs), e in zip(case["terms"], exp) if qs]
     for r, e in zip(est[1:], singles):
